@@ -28,6 +28,7 @@ type TConfig struct {
 	// PlainConns: the operator's listener hands out connections that are nothing but a net.Conn
 	// (what a TLS listener or a metering wrapper yields): no ReadFrom / WriteTo short cuts
 	PlainConns bool `json:"plain_conns,omitempty"`
+	GenFailAt  int  `json:"gen_fail_at,omitempty"` // >0: the n-th call of the relay address generator fails
 }
 
 // plainListener wraps the accepted connections so that only the net.Conn methods are visible.
@@ -191,6 +192,7 @@ func newTWorld(cfg TConfig) (*TWorld, error) {
 	w := &TWorld{cfg: cfg, net: sim.NewNet(), log: sim.NewLogger(120), seenIDs: map[uint32]bool{}, dport: 30000}
 	// the generator only needs cfg.GenFailAt and the net from a World
 	shim := &World{net: w.net}
+	shim.cfg.GenFailAt = cfg.GenFailAt
 	w.gen = &simGen{w: shim}
 	if cfg.LibStatic {
 		// relay listeners and outgoing connections from the library's static generator, bound to the
